@@ -326,19 +326,56 @@ def rule_call_flag(model):
                          if isinstance(x, ast.Name)}
     # ... or be what a lookup helper of the class returns:
     #   value = self._lookup(key)
-    helpers_ = {h.name for h in model.closure(g)
-                if h.cls is g.cls and h is not g and any(
-                    isinstance(x, ast.Return) and isinstance(
-                        x.value, ast.Subscript)
-                    for x in own_nodes(h.node))}
-    for n in own_nodes(g.node):
-        if isinstance(n, ast.Assign) and len(n.targets) == 1 and \
-                isinstance(n.targets[0], ast.Name) and isinstance(
-                    n.value, ast.Call) and isinstance(
-                    n.value.func, ast.Attribute) and \
-                n.value.func.attr in helpers_ and \
-                norm(n.value.func.value) == 'self':
-            loopvars.add(n.targets[0].id)
+    # (a method or a plain function of the module; it may return the value
+    # itself or a tuple that carries it: `found, value = _lookup(...)`)
+    clo_g = model.closure(g)
+    for h in clo_g:
+        if h is g or (h.cls is not g.cls and h.cls is not None):
+            continue
+        lv = set()
+        for n in own_nodes(h.node):
+            if isinstance(n, ast.For):
+                lv |= {x.id for x in ast.walk(n.target)
+                       if isinstance(x, ast.Name)}
+        if not lv:
+            continue
+
+        def carries(e, vals):
+            return (isinstance(e, ast.Subscript) and isinstance(
+                e.value, ast.Name) and e.value.id in lv) or (
+                isinstance(e, ast.Name) and e.id in vals)
+        vals = set()
+        for _ in range(2):
+            for n in own_nodes(h.node):
+                if isinstance(n, ast.Assign) and len(n.targets) == 1 and \
+                        isinstance(n.targets[0], ast.Name) and \
+                        carries(n.value, vals):
+                    vals.add(n.targets[0].id)
+        slots = set()
+        for n in own_nodes(h.node):
+            if not (isinstance(n, ast.Return) and n.value is not None):
+                continue
+            if carries(n.value, vals):
+                slots.add(None)
+            elif isinstance(n.value, ast.Tuple):
+                for k_, e_ in enumerate(n.value.elts):
+                    if carries(e_, vals):
+                        slots.add(k_)
+        if len(slots) != 1:
+            continue
+        slot = next(iter(slots))
+        for hh, c, m in model.helper_calls([g], h):
+            par = getattr(c, '_dt_parent', None)
+            if not (isinstance(par, ast.Assign) and par.value is c and
+                    len(par.targets) == 1):
+                continue
+            t = par.targets[0]
+            if slot is None and isinstance(t, ast.Name):
+                loopvars.add(t.id)
+            elif slot is not None and isinstance(t, ast.Tuple) and \
+                    slot < len(t.elts) and isinstance(t.elts[slot],
+                                                      ast.Name):
+                loopvars.add(t.elts[slot].id)
     # the looked-up value may live in its own variable:
     #   value = source[key]
     for _ in range(2):
@@ -371,17 +408,25 @@ def rule_call_flag(model):
     # the per-source try guards only the subscript lookup
     for name in ('getitem', '__contains__'):
         f2 = model.func('_DocumentTemplate', 'TemplateDict.' + name)
-        hnames = {h.name for h in model.closure(f2)
-                  if h.cls is f2.cls and h is not f2}
-        for f3, t in [(h, n) for h in model.closure(f2) if h.cls is f2.cls
+        # helpers that carry the search loop themselves
+        hnames = {h.node.name for h in model.closure(f2)
+                  if (h.cls is f2.cls or h.cls is None) and h is not f2
+                  and any(isinstance(n, ast.For) and any(
+                      isinstance(y, ast.Subscript) for y in ast.walk(n))
+                      for n in own_nodes(h.node))}
+        for f3, t in [(h, n) for h in model.closure(f2)
+                      if h.cls is f2.cls or (h.cls is None and
+                                             h.node.name in hnames)
                       for n in own_nodes(h.node)
                       if isinstance(n, ast.Try) and n.handlers]:
             calls_ = [x for x in ast.walk(t.body[0])
                       if isinstance(x, ast.Call)] if t.body else []
-            helper_only = len(calls_) == 1 and isinstance(
-                calls_[0].func, ast.Attribute) and \
-                calls_[0].func.attr in hnames and \
-                norm(calls_[0].func.value) == 'self'
+            helper_only = len(calls_) == 1 and ((isinstance(
+                calls_[0].func, ast.Attribute) and
+                calls_[0].func.attr in hnames and
+                norm(calls_[0].func.value) == 'self') or (
+                isinstance(calls_[0].func, ast.Name) and
+                calls_[0].func.id in hnames))
             only_lookup = len(t.body) == 1 and ((any(
                 isinstance(x, ast.Subscript) for x in ast.walk(t.body[0]))
                 and not calls_) or helper_only)
@@ -399,11 +444,23 @@ def rule_call_flag(model):
     # truth test of the source would skip mappings that are "empty" as
     # containers but still answer names: defaultdict, __missing__, lazy
     # records)
+    hnames_all = set()
     for name in ('getitem', '__contains__'):
         f2 = model.func('_DocumentTemplate', 'TemplateDict.' + name)
-        for h in [x for x in model.closure(f2) if x.cls is f2.cls]:
+        hnames_all |= {h.node.name for h in model.closure(f2)
+                       if h.cls is None and h is not f2 and any(
+                           isinstance(n, ast.For) and any(
+                               isinstance(y, ast.Subscript)
+                               for y in ast.walk(n))
+                           for n in own_nodes(h.node))}
+    for name in ('getitem', '__contains__'):
+        f2 = model.func('_DocumentTemplate', 'TemplateDict.' + name)
+        for h in [x for x in model.closure(f2)
+                  if x.cls is f2.cls or x.cls is None]:
             for lp in [n for n in own_nodes(h.node)
-                       if isinstance(n, ast.For) and '_data' in norm(n.iter)]:
+                       if isinstance(n, ast.For) and (
+                           '_data' in norm(n.iter) or
+                           h.node.name in hnames_all)]:
                 for c in ast.walk(lp):
                     if not isinstance(c, ast.Continue):
                         continue
@@ -543,13 +600,63 @@ def rule_direction(model):
         if f is None:
             raise AnalysisError(f'TemplateDict.{name} not found')
         # the search loop may live in a helper of the class (_lookup)
-        loops = [n for g in model.closure(f) for n in own_nodes(g.node)
+        clo = model.closure(f)
+        loops = [n for g in clo for n in own_nodes(g.node)
                  if isinstance(n, ast.For)]
-        ok = any(isinstance(lp.iter, ast.Call) and
-                 isinstance(lp.iter.func, ast.Name) and
-                 lp.iter.func.id == 'reversed' and
-                 norm(lp.iter.args[0]) == 'self._data' for lp in loops) or \
-            any(norm(lp.iter) == 'self._data[::-1]' for lp in loops)
+        owner = {id(n): g for g in clo for n in own_nodes(g.node)
+                 if isinstance(n, ast.For)}
+
+        def is_stack(e, g, depth=0):
+            # e, evaluated in g, is the stack list: self._data, a local
+            # bound once to it, or a parameter that every call site in the
+            # closure binds to it
+            if norm(e) == 'self._data' and g.cls is not None:
+                return True
+            if not isinstance(e, ast.Name) or depth > 3:
+                return False
+            binds = [n for n in own_nodes(g.node)
+                     if isinstance(n, ast.Assign) and any(
+                         isinstance(t, ast.Name) and t.id == e.id
+                         for t in n.targets)]
+            if binds:
+                return len(binds) == 1 and is_stack(binds[0].value, g,
+                                                    depth + 1)
+            params = [a.arg for a in g.node.args.posonlyargs +
+                      g.node.args.args]
+            if e.id not in params:
+                return False
+            k = params.index(e.id)
+            sites = []
+            for h in clo:
+                for c in own_nodes(h.node):
+                    if not isinstance(c, ast.Call):
+                        continue
+                    fn = c.func
+                    nm = fn.id if isinstance(fn, ast.Name) else (
+                        fn.attr if isinstance(fn, ast.Attribute) and
+                        isinstance(fn.value, ast.Name) and
+                        fn.value.id == 'self' else None)
+                    if nm != g.node.name:
+                        continue
+                    kk = k - 1 if (isinstance(fn, ast.Attribute) and
+                                   params and params[0] == 'self') else k
+                    arg = c.args[kk] if 0 <= kk < len(c.args) else next(
+                        (w.value for w in c.keywords if w.arg == e.id), None)
+                    sites.append((h, arg))
+            return bool(sites) and all(
+                a is not None and is_stack(a, h, depth + 1)
+                for h, a in sites)
+
+        def top_down(lp):
+            g = owner[id(lp)]
+            it = lp.iter
+            if isinstance(it, ast.Call) and isinstance(it.func, ast.Name) \
+                    and it.func.id == 'reversed' and len(it.args) == 1:
+                return is_stack(it.args[0], g)
+            if isinstance(it, ast.Subscript) and norm(it.slice) == '::-1':
+                return is_stack(it.value, g)
+            return False
+        ok = any(top_down(lp) for lp in loops)
         r.instance(f.where, f'for ... in {norm(loops[0].iter)}' if loops
                    else 'no loop', 'top-down' if ok else 'WRONG')
         if not ok:
